@@ -17,7 +17,7 @@ pub fn prop() -> Prop {
     Prop {
         id: "C09",
         level: "exploration",
-        rule: "every program of the scope slice (declarations with distinct literals so that the value read identifies the declaration resolved, assignments, prints, blocks, als, a one-shot loop, named functions f(p) in blocks and in functions, calls, over the names a, b, f, p) up to N nodes, plus the nested-function directed family; for each base program the reference interpreter's outcome, and exhaustively: (r) every consistent renaming of one declaration and exactly the uses the model binds to it to a fresh name, (s) insertion of an unused `stel z = 0` before every statement of every statement list, and of a shadowing `stel a = 9` wherever no later mention of `a` follows in that list, both of which must leave value, output and error unchanged; (u) replacement of each single identifier occurrence by an undeclared name, which must give a reference error with EMPTY output. Non-trivial = the base program declares at least one name and is defined by the model; distinct = distinct texts",
+        rule: "every program of the scope slice (declarations with distinct literals so that the value read identifies the declaration resolved, assignments, prints, blocks, als, a one-shot loop, named functions f(p) in blocks and in functions, calls, over the names a, b, f, p) up to N nodes, plus the nested-function directed family and the block-function family (functions defined in top-level blocks / als branches / loop bodies nested to depth 3 with every subset of levels declaring the same name, reading and writing it, called inside the scope); for each base program the reference interpreter's outcome, and exhaustively: (r) every consistent renaming of one declaration and exactly the uses the model binds to it to a fresh name, (s) insertion of an unused `stel z = 0` before every statement of every statement list, and of a shadowing `stel a = 9` wherever no later mention of `a` follows in that list, both of which must leave value, output and error unchanged; (u) replacement of each single identifier occurrence by an undeclared name, which must give a reference error with EMPTY output. Non-trivial = the base program declares at least one name and is defined by the model; distinct = distinct texts",
         assumptions: &["static resolution rules of refint::Resolver (DESIGN 4.2 Names) are the specification", "U1/U2/U6/U7 programs are excluded from the base set"],
         run,
         replay,
@@ -161,6 +161,17 @@ pub fn check_program(sh: &mut Shard, base: &[Stmt]) -> u64 {
 
 fn run(sh: &mut Shard) {
     let tier = sh.cfg.tier;
+    // slot-number ladders: many globals / nested block locals, each read back
+    crate::ladders::run_family(sh, "scope", Some("scope"), false);
+    for prog in slices::block_function_programs() {
+        if !sh.mine() {
+            continue;
+        }
+        sh.begin(&|| printer::program(&prog));
+        sh.count("family:directed-block-functions");
+        let n = check_program(sh, &prog);
+        sh.add("runs", n);
+    }
     for prog in slices::nested_function_programs() {
         if !sh.mine() {
             continue;
